@@ -7,7 +7,7 @@ HERE = os.path.dirname(os.path.dirname(os.path.abspath(__file__)))
 sys.path.insert(0, HERE)
 from rules import lib, flowrun, panic_audit
 
-MODS = ["c10", "c20", "c12", "c19"]
+MODS = ["c10", "c20", "c12", "c18", "c19"]
 
 
 def main():
